@@ -279,12 +279,64 @@ def profile_C05(g, tier):
     return scen
 
 
+GRAPH_NETS = ["net1", "net1 net2", "net1 net2 net3", "net3 net5 net1", "net2 net4", "net1 net3 net5",
+              "cluster1.net6 cluster1.net7", "net1 cluster1.net6 cluster1.net7", "cluster1.net6 cluster2.net6",
+              "cluster1.net7 cluster2.net9 net1", "net0", "net0 net1", "net1 net2 net3 net4 net5"]
+GRAPH_VMS = [
+    VM_DEFAULT, VM_DEFAULT,
+    {"vm1": "only Fedora\n", "vm2": "only Win7\n", "vm3": "only Kali\n"},
+    {"vm1": "only CentOS\n", "vm2": "only Win7\n", "vm3": "only Ubuntu\n"},
+    {"vm1": "", "vm2": "only Win10\n", "vm3": "only Ubuntu\n"},
+    {"vm1": "only CentOS\n", "vm2": "", "vm3": "only Ubuntu\n"},
+    {"vm1": "", "vm2": "", "vm3": "only Ubuntu\n"},
+]
+
+
+def graph_scenario(g, tier, props):
+    sels = [s for s in SELECTIONS if s[1] <= (3 if tier == "quick" else 5)]
+    scen = base_scenario(g, selections=sels, nets=GRAPH_NETS, vm_variants=GRAPH_VMS, modes=("lazy", "lazy", "eager"))
+    scen["graph_props"] = props
+    scen["families"]["durations"] = g.pick("gdur", ["ties", "spread", "unit"])
+    return scen
+
+
+def profile_C06(g, tier):
+    scen = graph_scenario(g, tier, ["C06"])
+    if g.chance("fail", 0.3):
+        scen["families"]["p_fail"] = 0.2
+    if g.chance("populate", 0.3):
+        scen["families"]["p_pop_shared"] = 0.5
+    return scen
+
+
+def profile_C09(g, tier):
+    scen = graph_scenario(g, tier, ["C09"])
+    if scen["mode"] == "eager":
+        scen["parse_twice"] = g.chance("twice", 0.5)
+    if g.chance("populate", 0.3):
+        scen["families"]["p_pop_shared"] = 0.5
+    return scen
+
+
+def profile_C16(g, tier):
+    scen = graph_scenario(g, tier, ["C16"])
+    if g.chance("fail", 0.5):
+        scen["families"]["p_fail"] = g.pick("p_fail", [0.2, 0.4])
+        scen["params"].update(g.pick("retry", [{}, {"max_tries": "2"}, {"max_tries": "3"}]))
+    if g.chance("populate", 0.3):
+        scen["families"]["p_pop_shared"] = 0.5
+    return scen
+
+
 PROFILES = {
     "C01": profile_C01,
     "C02": profile_C02,
     "C03": profile_C03,
     "C04": profile_C04,
     "C05": profile_C05,
+    "C06": profile_C06,
+    "C09": profile_C09,
+    "C16": profile_C16,
     "C08": profile_C08,
     "C10": profile_C10,
 }
